@@ -126,7 +126,7 @@ func runC05Traces(f *common.Flags, res *common.Result, m *mdl, n int) {
 					bad(i, h.Kind, implTrace, mtrace)
 					ok = false
 				}
-			case "putoff", "putreuse", "special":
+			case "putoff", "putreuse", "putcb", "special":
 				// covered by the main runs only
 			default: // damage, applied to the files and to the model directly
 				path, k, name := h.target(dir)
